@@ -155,6 +155,15 @@ def main(job):
     from crosshair.core_and_libs import analyze_function, run_checkables, AnalysisKind, MessageType
     from crosshair.options import AnalysisOptionSet
 
+    # CrossHair may replace a call to any function that carries a contract (e.g. its own model
+    # of builtin hash()) by an uninterpreted symbolic result ("short-circuiting"). That is an
+    # over-approximation of the real code (a symbolic hash makes CallKey.__hash__ fail in a real
+    # dict): switch it off so that every call is really executed.
+    import crosshair.core as _cc
+
+    _cc.ShortCircuitingContext.__enter__ = lambda self: None
+    _cc.ShortCircuitingContext.__exit__ = lambda self, *a: False
+
     zstat = {"queries": 0, "time": 0.0, "unknown": 0}
     orig_check = z3.Solver.check
 
